@@ -3,7 +3,7 @@
 from __future__ import annotations
 
 from . import e1common
-from .oracles import NON_REPLAYABLE, check_docs, replay_model
+from .oracles import NON_REPLAYABLE, check_docs, doc_name, replay_model
 
 TERMINATORS = ("abort", "stop", "halt")
 
@@ -326,4 +326,298 @@ def oracle_c03(case, obs, res, ref_obs):
             res.fail("num_events_differs", f"run#{ri}: num_events {a} vs uninterrupted {b}", **F(**feats))
     _, info = replay_model(obs)
     res.nontrivial = any(it["cache_len"] > 0 for it in info["interruptions"]) and e1common.interrupted_with_open_run(obs)
+    return res
+
+
+# ------------------------------------------------------------------------------------------ C10
+
+
+def cleanup_obligations(obs):
+    """Plan-side: every try/finally that was entered ran its finally; every finalize/contingency
+    final plan started.  Returns list of unmet obligations."""
+    ev = obs.plog.events
+    entered = [e for e in ev if e["t"] == "try_enter" and e["has_final"]]
+    done = {e["node"] for e in ev if e["t"] == "finally"}
+    missing = [f"finally of try#{i}" for i, e in enumerate(entered) if e["node"] not in done]
+    for label in ("finalize", "contingency_final"):
+        n_enter = sum(1 for e in ev if e["t"] == "wrap_enter" and e["label"] == label)
+        n_start = sum(1 for e in ev if e["t"] == "cleanup_start" and e["label"] == label)
+        if n_start < n_enter:
+            missing.append(f"{label} cleanup ({n_start} of {n_enter} started)")
+    return missing, len(entered) + sum(1 for e in ev if e["t"] == "wrap_enter")
+
+
+def oracle_c10(case, obs, res):
+    from bluesky.utils import RunEngineInterrupted
+
+    F = lambda **kw: _feat(case, obs, **kw)  # noqa: E731
+    if obs.stuck:
+        res.classes.append("stuck(C07)")
+        return res
+    ms = model_states(obs)
+    reqs = [i for i in obs.injected if i["inj"]["do"] in ("pause", "suspend") and i["seg"] == 0]
+    judged = []
+    for i in reqs:
+        a, b = effect_window(obs, i)
+        window = ms[a : b + 1] or [ms[-1]]
+        if b >= obs.calls[0].get("hook_end", len(obs.hook)) and obs.plog.returned:
+            res.classes.append("request_after_plan_end")
+            continue
+        if not any(window):
+            judged.append(i)
+        elif all(window):
+            res.classes.append("request_in_resumable_section(C08)")
+        else:
+            res.classes.append("request_at_resumability_boundary")
+    if not judged:
+        return res
+    # only the first request matters: it must abort the plan
+    i = judged[0]
+    if any(r is not i and r["total"] < i["total"] for r in reqs):
+        res.classes.append("earlier_request")
+        return res
+    c = obs.calls[0]
+    if i["state"] != "running":
+        res.classes.append("request_in_state_" + i["state"])
+        return res
+    paused_after = [s for s, m in zip(obs.states, obs.state_meta) if s[0] == "paused" and m["total"] >= i["total"]]
+    if paused_after:
+        res.fail("paused_in_nonresumable_section", f"engine entered 'paused' after a {i['inj']['do']} in a non-resumable section", **F())
+    handled = [e for e in obs.plog.events if e["t"] == "except" and e.get("action") != "reraise"]
+    if handled:
+        # the plan itself swallowed or transformed the FailedPause: what happens next is the plan's doing
+        res.classes.append("plan_handled_failed_pause")
+        return res
+    if not (c.get("outcome") == "raise" and isinstance(c.get("exc"), RunEngineInterrupted)):
+        res.fail(
+            "interruption_not_reported",
+            f"RE(...) outcome {c.get('outcome')} {type(c.get('exc')).__name__ if c.get('exc') is not None else ''} "
+            "instead of RunEngineInterrupted",
+            **F(),
+        )
+    if c.get("state_after") not in ("idle",) and not paused_after:
+        res.fail("not_idle_after_failed_pause", f"state {c.get('state_after')} after the call", **F())
+    missing, n_oblig = cleanup_obligations(obs)
+    if missing:
+        res.fail("cleanup_skipped", f"cleanup code did not run: {missing}", **F())
+    runs, _ = check_docs(obs.docs, idle=False, validate=False)
+    # runs open when the request took effect
+    order = i["hook_index"]
+    for r in runs.values():
+        if r.stop is None:
+            res.fail("run_left_open", f"run {r.uid} has no stop", **F())
+    open_then = i["open_runs"]
+    res.nontrivial = n_oblig >= 1 and open_then >= 1
+    return res
+
+
+# ------------------------------------------------------------------------------------------ C09
+
+
+def oracle_c09(case, obs, res):
+    F = lambda **kw: _feat(case, obs, **kw)  # noqa: E731
+    if obs.stuck:
+        res.classes.append("stuck(C07)")
+        return res
+    # deferred requests: accepted foreign 'defer' calls and in-plan pause(defer=True) messages
+    acc = [r for r in obs.foreign if r["label"] == "defer" and r.get("state") == "returned" and r.get("seg") == 0]
+    others = [i for i in obs.injected if i["inj"]["do"] != "defer"]
+    if not acc or others:
+        res.classes.append("no_single_deferred_request")
+        return res
+    c = obs.calls[0]
+    end = c.get("hook_end", len(obs.hook))
+    # first hook (in stage 0) that saw the flag set
+    seen = [hi for hi in range(0, end) if obs.hook[hi]["deferred"]]
+    # first checkpoint whose hook saw the flag set
+    cps = [hi for hi in seen if obs.hook[hi]["msg"].command == "checkpoint"]
+    paused = [(s, m) for s, m in zip(obs.states, obs.state_meta) if s[0] == "paused" and m["seg"] == 0]
+    terminated = any(s[0] in ("aborting", "stopping", "halting") for s in obs.states)
+    if terminated:
+        res.classes.append("terminated")
+        return res
+    if cps:
+        cp = cps[0]
+        if not paused:
+            res.fail("no_pause_at_checkpoint", f"deferred pause pending at checkpoint hook#{cp} but the engine never paused", **F())
+            return res
+        ph = paused[0][0][2]  # hook index at which 'paused' was entered
+        if ph != cp + 1:
+            res.fail(
+                "pause_not_at_next_checkpoint",
+                f"deferred pause seen pending at checkpoint hook#{cp}; engine paused when {ph} messages had been hooked "
+                f"(executed after the checkpoint: {[h['msg'].command for h in obs.hook[cp + 1 : ph]]})",
+                **F(),
+            )
+        # resume replays nothing
+        nxt = obs.calls[1] if len(obs.calls) > 1 else None
+        if nxt is not None and nxt["do"] == "resume" and nxt.get("outcome") in ("return", "raise"):
+            seen_ids = {id(h["msg"]) for h in obs.hook[:ph]}
+            rs, re_ = nxt.get("hook_start", ph), nxt.get("hook_end", len(obs.hook))
+            replayed = [h["msg"].command for h in obs.hook[rs:re_] if id(h["msg"]) in seen_ids]
+            if replayed:
+                res.fail("replay_after_deferred_pause", f"resume after a deferred pause replayed {replayed}", **F())
+        res.nontrivial = (cp - seen[0]) >= 1 if seen else False
+        res.classes.append("paused_at_checkpoint")
+    else:
+        # no checkpoint followed the request (as far as the hooks saw the flag)
+        if seen and paused:
+            res.fail("pause_without_checkpoint", "engine paused although no checkpoint followed the deferred request", **F())
+        if c.get("outcome") == "return":
+            res.classes.append("no_checkpoint_followed")
+            if seen and not c.get("deferred_after"):
+                res.fail("pending_flag_lost", "deferred_pause_requested is False after the plan completed without a checkpoint", **F())
+            if obs.probe is not None and obs.probe.get("outcome") == "return":
+                ps = obs.probe.get("hook_start")
+                if ps is not None and ps < len(obs.hook) and obs.hook[ps]["deferred"]:
+                    res.fail("pending_flag_survives_next_plan", "deferred_pause_requested still True once the next plan started", **F())
+            res.nontrivial = bool(seen)
+    return res
+
+
+# ------------------------------------------------------------------------------------------ C02
+
+
+def _causes(case, obs):
+    """Independent list of things that can end the plan: (kind, hook_index_of_effect, payload)."""
+    from bluesky.utils import RunEngineControlException
+
+    causes = []
+    stages = case.get("stages", [])
+    for r in obs.foreign:
+        if r["label"] in TERMINATORS and r.get("state") == "returned":
+            causes.append((r["label"], None, r))
+    for ci, c in enumerate(obs.calls):
+        if c["do"] in TERMINATORS and c.get("outcome") in ("return", "raise") and not c.get("auto"):
+            causes.append((c["do"], c.get("hook_start"), c))
+        if c.get("auto"):
+            causes.append(("abort", c.get("hook_start"), c))
+    from bluesky.utils import FailedPause
+
+    ms = model_states(obs)
+    cleared = [hi for hi, h in enumerate(obs.hook) if h["msg"].command == "clear_checkpoint"]
+    for i in obs.injected:
+        if i["inj"]["do"] in ("pause", "suspend", "defer"):
+            a, b = effect_window(obs, i)
+            seg_end = obs.calls[i["seg"]].get("hook_end", len(obs.hook)) if i["seg"] < len(obs.calls) else len(obs.hook)
+            if a >= seg_end and obs.plog.returned:
+                continue  # arrived after the plan had finished
+            if cleared and cleared[0] < b + 1 and i["inj"]["do"] == "defer":
+                causes.append(("ambiguous", a, i))  # deferred pause after clear_checkpoint: F3 territory (C08)
+                continue
+            if i["inj"]["do"] == "defer":
+                continue
+            window = ms[a : b + 1] or [ms[-1]]
+            if not any(window):
+                causes.append(("failed_pause", a, i))
+            elif not all(window) or (cleared and cleared[0] < b + 1):
+                causes.append(("ambiguous", a, i))
+    for hi, h in enumerate(obs.hook):
+        if h["msg"].command == "pause" and not ms[hi]:
+            causes.append(("failed_pause", hi, None))
+    for y in obs.plog.yields:
+        if isinstance(y.get("thrown"), FailedPause):
+            causes.append(("failed_pause", None, y))
+    exc = obs.plog.raised
+    if exc is not None and not isinstance(exc, (RunEngineControlException, GeneratorExit, FailedPause)):
+        causes.append(("error", None, exc))
+    # the plan itself swallowed or transformed a control exception: what follows is the plan's doing
+    for e in obs.plog.events:
+        if e["t"] == "except" and e.get("action") != "reraise" and isinstance(e.get("exc"), (RunEngineControlException, FailedPause)):
+            causes.append(("ambiguous", None, e))
+    return causes
+
+
+def oracle_c02(case, obs, res):
+    from bluesky.utils import FailedStatus, RunEngineInterrupted
+
+    from .devices import DeviceError
+
+    reqs = [i for i in obs.injected if i["inj"]["do"] in ("pause", "suspend", "defer")]
+    after_end = bool(reqs) and all(
+        effect_window(obs, i)[1] >= (obs.calls[i["seg"]].get("hook_end", len(obs.hook)) if i["seg"] < len(obs.calls) else 0)
+        for i in reqs
+    )
+    F = lambda **kw: _feat(case, obs, request_after_last_message=after_end, **kw, **interruption_features(obs))  # noqa: E731
+    if obs.stuck or obs.final_state != "idle":
+        res.classes.append("not_idle(C07)")
+        return res
+    causes = _causes(case, obs)
+    kinds = sorted({c[0] for c in causes})
+    if len(kinds) > 1 or "ambiguous" in kinds:
+        res.classes.append("multi_cause:" + "+".join(kinds))
+        return res
+    cause = kinds[0] if kinds else "none"
+    res.classes.append("cause:" + cause)
+    expected = {"none": "success", "stop": "success", "abort": "abort", "halt": "abort", "failed_pause": "abort", "error": "fail"}[cause]
+    exc = obs.plog.raised if cause == "error" else None
+    runs, _ = check_docs(obs.docs, idle=False, validate=False)
+    # classify each stop: emitted by the engine itself, or while a plan-issued close_run executed
+    judged = 0
+    for item in obs.docs:
+        name, doc, hi = doc_name(item[0]), item[1], item[2]
+        if name != "stop":
+            continue
+        last = obs.hook[hi - 1]["msg"] if 0 < hi <= len(obs.hook) else None
+        by_plan = last is not None and last.command == "close_run" and id(last) in obs.plog.msg_ids
+        # is the engine's own cleanup the emitter?  (stop emitted after the last hooked message of its stage
+        # and the last message is not a close_run of the plan)
+        if by_plan:
+            kw = last.kwargs
+            if kw.get("reason") == "plan-said-so":
+                continue  # the plan chose the status itself
+            if kw.get("exit_status") is None:
+                # plain close_run by the plan (documented default 'success'); only meaningful without a cause
+                if cause != "none":
+                    continue
+            status_only = True
+        else:
+            status_only = False
+        judged += 1
+        if doc.get("exit_status") != expected:
+            res.fail(
+                "wrong_exit_status",
+                f"cause {cause}: RunStop exit_status={doc.get('exit_status')!r} (reason {doc.get('reason')!r}), expected {expected!r}; "
+                f"closed by {'plan/wrapper close_run' if by_plan else 'engine'}",
+                **F(cause=cause, closed_by_plan=by_plan),
+            )
+        if cause == "error" and doc.get("exit_status") == "fail" and doc.get("reason") != str(exc):
+            res.fail(
+                "wrong_reason",
+                f"RunStop reason {doc.get('reason')!r} != str(exception) {str(exc)!r}",
+                **F(cause=cause, closed_by_plan=by_plan),
+            )
+    # the call's outcome
+    main = [c for c in obs.calls if c["do"] in ("call", "resume") and c.get("outcome") in ("return", "raise")]
+    last_call = main[-1] if main else None
+    if last_call is not None:
+        e = last_call.get("exc")
+        if cause in ("stop", "abort", "halt", "failed_pause"):
+            # the blocking call that was running when the plan ended must raise RunEngineInterrupted
+            term_from_pause = any(c["do"] in TERMINATORS for c in obs.calls)
+            if not term_from_pause and not (last_call["outcome"] == "raise" and isinstance(e, RunEngineInterrupted)):
+                res.fail(
+                    "interruption_not_raised",
+                    f"cause {cause}: {last_call['do']}() -> {last_call['outcome']} {type(e).__name__ if e is not None else ''}",
+                    **F(cause=cause),
+                )
+        elif cause == "error":
+            if last_call["outcome"] != "raise" or e is not exc:
+                res.fail(
+                    "exception_not_reraised",
+                    f"plan ended with {type(exc).__name__}: {exc}; {last_call['do']}() -> {last_call['outcome']} "
+                    f"{type(e).__name__ if e is not None else ''}: {e}",
+                    **F(cause=cause),
+                )
+            if isinstance(exc, FailedStatus):
+                if not isinstance(exc.__cause__, DeviceError) or exc.__cause__ not in obs.world.raised:
+                    res.fail("failed_status_not_chained", f"FailedStatus.__cause__ is {exc.__cause__!r}", **F(cause=cause))
+        elif cause == "none":
+            if last_call["outcome"] != "return":
+                res.fail("unexpected_raise", f"no cause but {last_call['do']}() raised {type(e).__name__}: {e}", **F(cause=cause))
+            elif case.get("re", {}).get("call_returns_result"):
+                v = last_call.get("value")
+                if getattr(v, "exit_status", None) != "success" or getattr(v, "interrupted", None) is not False:
+                    res.fail("result_object_disagrees", f"RunEngineResult {v}", **F(cause=cause))
+    res.nontrivial = judged >= 1 and cause != "none"
     return res
